@@ -23,6 +23,7 @@ def wrapped(cfgkey):
         return _MD[cfgkey]
     md = gen.make_md(json.loads(cfgkey))
     log = []
+    depth = [0, 0]
     K = facade.spec_constants()
     alt = {"table": ["paragraph", "reference"], "fence": ["paragraph", "reference", "blockquote", "list"],
            "blockquote": ["paragraph", "reference", "blockquote", "list"], "hr": ["paragraph", "reference", "blockquote", "list"],
@@ -51,15 +52,21 @@ def wrapped(cfgkey):
         def mkb(name=name, fn=fn):
             def w(state, startLine, endLine, silent):
                 l0, n0, v0 = state.line, len(state.tokens), state.level
+                slot = len(log)
+                log.append(None)          # events are kept in order of rule ENTRY
+                depth[0] += 1
                 t0 = (state.bMarks[:], state.eMarks[:], state.tShift[:], state.sCount[:], state.bsCount[:],
                       state.blkIndent, state.listIndent, state.parentType)
-                r = fn(state, startLine, endLine, silent)
+                try:
+                    r = fn(state, startLine, endLine, silent)
+                finally:
+                    depth[0] -= 1
                 t1 = (state.bMarks, state.eMarks, state.tShift, state.sCount, state.bsCount)
                 same = 1 if all(a == b for a, b in zip(t0, t1)) else 0
                 ctx = 1 if (state.blkIndent, state.listIndent) == t0[5:7] else 0
                 pty = 1 if state.parentType == t0[7] else 0
-                log.append(["b", name, 1 if silent else 0, 1 if r else 0, startLine, endLine, l0, state.line, n0,
-                            len(state.tokens), v0, state.level, same, ctx, pty])
+                log[slot] = ["b", name, 1 if silent else 0, 1 if r else 0, startLine, endLine, l0, state.line, n0,
+                             len(state.tokens), v0, state.level, same, ctx, pty, depth[0] + 1]
                 return r
             return w
         md.block.ruler.at(name, mkb(), {"alt": alt.get(name, [])})
@@ -69,9 +76,15 @@ def wrapped(cfgkey):
         def mki(name=name, fn=fn):
             def w(state, silent):
                 p0, m0, n0, d0, v0 = state.pos, state.posMax, len(state.tokens), len(state.pending), state.level
-                r = fn(state, silent)
-                log.append(["i", name, 1 if silent else 0, 1 if r else 0, p0, state.pos, m0, state.posMax, n0,
-                            len(state.tokens), d0, len(state.pending), v0, state.level])
+                slot = len(log)
+                log.append(None)
+                depth[1] += 1
+                try:
+                    r = fn(state, silent)
+                finally:
+                    depth[1] -= 1
+                log[slot] = ["i", name, 1 if silent else 0, 1 if r else 0, p0, state.pos, m0, state.posMax, n0,
+                             len(state.tokens), d0, len(state.pending), v0, state.level, depth[1] + 1]
                 return r
             return w
         md.inline.ruler.at(name, mki())
@@ -86,7 +99,8 @@ def record(job):
     del log[:]
     out = md.render(doc)
     core = [n for n in md.core.ruler.get_active_rules()]
-    return {"core": core, "ev": log[:6000]}, out
+    return {"core": core, "bchain": md.block.ruler.get_active_rules(), "ichain": md.inline.ruler.get_active_rules(),
+            "ev": [e for e in log if e is not None][:6000]}, out
 
 
 def linetable_record(src):
